@@ -151,6 +151,7 @@ def run(tier, seed):
     r = special.verify(wd, "avail", jobs[1]["out"], avail_contract, harness, avail, replace=[ctor], attempts=(("concrete", "sat", 300), ("concrete", "cadical", 600)), defs=CPU)
     S.add("xsimd::available_architectures()", "include/xsimd/config/xsimd_cpuid.hpp", r, replaced=["supported_arch::supported_arch()"],
           note="invariant of the function-local static (set only by the constructor; __cxa_guard modelled single-threaded)")
+    B = special.Batch()
     # ---- (c) dispatch: operator() of dispatcher<probe, arch_list<...>> with walk_archs inlined
     for i, n in enumerate(sorted(ops)):
         dj = res[2 + i]
@@ -201,10 +202,12 @@ def run(tier, seed):
         call_x = "&X" if dj["target"]["params"][1]["type"].endswith("*") else "X"
         harness = "void harness(void) { %s D; %s%s(&D, %s); __CPROVER_assert(0, \"canary: end of harness is reachable\"); }\n" % (dstruct, arg_decl, n, call_x)
         # the lowered C must see the ghost globals as the same objects: they are extern "C" globals of the TU
-        r = special.verify(wd, "disp_%d" % i, jobs[2 + i]["out"], contract, harness, n, replace=[avail] if any(c["name"] == avail for c in dj["callees"]) else [],
-                           attempts=(("concrete", "sat", 300), ("concrete", "cadical", 600)), defs=CPU)
-        S.add("dispatcher<probe, arch_list<%s>>::operator()" % ", ".join(lst), "include/xsimd/config/xsimd_arch.hpp", r, replaced=["available_architectures()"],
-              note="walk_archs recursion inlined; exactly-once, first available member, argument forwarded, result returned")
+        B.add((lambda r, lst=lst: S.add("dispatcher<probe, arch_list<%s>>::operator()" % ", ".join(lst), "include/xsimd/config/xsimd_arch.hpp", r,
+                                        replaced=["available_architectures()"],
+                                        note="walk_archs recursion inlined; exactly-once, first available member, argument forwarded, result returned")),
+              wd, "disp_%d" % i, jobs[2 + i]["out"], contract, harness, n, replace=[avail] if any(c["name"] == avail for c in dj["callees"]) else [],
+              attempts=(("concrete", "sat", 300), ("concrete", "cadical", 600)), defs=CPU)
+    B.run()
     rep.notes["dispatch_lists"] = len(lists)
     rep.notes["configuration_space"] = "all values of CPUID.1, CPUID.7.0, CPUID.7.1, CPUID.80000001 registers and XCR0 (symbolic), under the XCR0 consistency of the statement"
     rep.assumptions += ["CPUID/XGETBV semantics per Intel SDM (ghost machine state read by the modelled inline asm)",
